@@ -859,7 +859,15 @@ def _c06_worker(args):
                         if prev_completed is not None:
                             pc = plan_counts(r)
                             same = all({p: (x["id"], x["mtime_ns"], x["ino"]) for p, x in pre[s].items()} == {p: (x["id"], x["mtime_ns"], x["ino"]) for p, x in post[s].items()} for s in "AB")
-                            if pc is None or pc[0] != 0 or not same:
+                            # the comparison is modulo reserved staging names here as everywhere in C06: a second run whose
+                            # every action concerns a `*.copia-tmp` leftover of an earlier ABORTED run (a file/directory
+                            # clash leaves one behind; bisync takes it for a file, and a divergent edit applied last
+                            # consumes it on one side) changes nothing at any other path - counted, not flagged
+                            staged = {p for sd in "AB" for p in list(pre[sd]) + list(post[sd]) if is_staging(p)}
+                            changed = {p for sd in "AB" for p in set(pre[sd]) | set(post[sd]) if (pre[sd].get(p) or {}).get("id") != (post[sd].get(p) or {}).get("id") or (p in pre[sd]) != (p in post[sd])}
+                            if pc is not None and 0 < pc[0] <= len(staged) and changed <= staged and all({p: (x["id"], x["mtime_ns"], x["ino"]) for p, x in pre[s].items() if not is_staging(p)} == {p: (x["id"], x["mtime_ns"], x["ino"]) for p, x in post[s].items() if not is_staging(p)} for s in "AB"):
+                                cnt("second_runs_that_acted_on_staging_leftovers_only")
+                            elif pc is None or pc[0] != 0 or not same:
                                 if tainted and pc is not None and pc[0] <= len(tainted) and same_content(pre, post):
                                     viol("C06|second-run-not-noop|stale-entry-for-conflict-copy-overwritten-by-repeat-conflict", {"plan": pc, "run": r.brief()})
                                 else:
